@@ -300,8 +300,9 @@ func (b *Billet) traverse(curr Node, path, from []byte, process func(pathToNode 
 				n.Children[i] = r
 			}
 			// Process the last child after the rest of the children to match lexicographic keys comparison order,
-			// since the last child doesn't add suffix to the key.
-			r, err := b.traverse(n.Children[lastChild], path, from, process, ignoreStorageErr, backwards)
+			// since the last child doesn't add suffix to the key. Its key is a prefix of the start bound (if any),
+			// hence it's always in range.
+			r, err := b.traverse(n.Children[lastChild], path, []byte{}, process, ignoreStorageErr, backwards)
 			if err != nil {
 				if !errors.Is(err, errStop) {
 					return nil, err
@@ -316,7 +317,7 @@ func (b *Billet) traverse(curr Node, path, from []byte, process func(pathToNode 
 	case *ExtensionNode:
 		if len(from) != 0 && bytes.HasPrefix(from, n.key) {
 			from = from[len(n.key):]
-		} else if len(from) == 0 || bytes.Compare(n.key, from) > 0 {
+		} else if len(from) == 0 || bytes.HasPrefix(n.key, from) || (bytes.Compare(n.key, from) > 0) != backwards {
 			from = []byte{}
 		} else {
 			return b.tryCollapseExtension(n), nil
